@@ -1,6 +1,7 @@
 package pure
 
 import (
+	"strings"
 	"bytes"
 	"encoding/hex"
 	"encoding/json"
@@ -166,6 +167,18 @@ func TestC17ChainHash(t *testing.T) {
 		forged, _ := json.Marshal(m)
 		if err := new(chain.Info).UnmarshalJSON(forged); err == nil {
 			rec.Violation(rt, "C17/json-accepts-mismatching-hash", fmt.Sprintf("UnmarshalJSON accepted info with %s but the original chain_hash: %s", what, forged), art)
+		}
+		// ... and so must the perturbed info under a chain_hash that is not even well-formed (the decoder must not fall back to
+		// "no hash given" for values it cannot parse)
+		{
+			hx := hex.EncodeToString(h0)
+			bad := rapid.SampledFrom([]string{hx[:len(hx)-1], "zz" + hx[2:], " " + hx, hx + "0", "0x" + hx, "not-a-hash", strings.Repeat("g", 64)}).Draw(rt, "malformedHash")
+			_ = json.Unmarshal(doc, &m)
+			m["chain_hash"] = bad
+			forged3, _ := json.Marshal(m)
+			if err := new(chain.Info).UnmarshalJSON(forged3); err == nil {
+				rec.Violation(rt, "C17/json-accepts-mismatching-hash", fmt.Sprintf("UnmarshalJSON accepted info with %s under the malformed chain_hash %q", what, bad), art)
+			}
 		}
 		// the original info with another valid-looking hash must be rejected as well
 		doc0, _ := json.Marshal(info)
